@@ -14,7 +14,7 @@ from ruamel.yaml import YAML
 
 import hfir
 import tlc
-from common import MachineryError, digest, seed
+from common import MachineryError, digest, match_known, seed
 
 HF_CFG = "SPECIFICATION Spec\nINVARIANT Verdict\nCHECK_DEADLOCK FALSE\n"
 
@@ -220,27 +220,58 @@ def run_batch(items, report, relevant, wd, what, timeout=2400, shards=None):
                     rel.setdefault(c, {}).setdefault(v, []).append((cfg, supi))
         oc["relevant"] = rel
         for c, byv in rel.items():
-            if all(v in byv for v in variants):
-                cfg, supi = byv[variants[0]][0]
-                sup = e["sups"][cfg - 1][supi - 1]
-                report.violation(dict(kind="exec", clause=c, spec=meta["yaml"], text=meta["text"], family=meta["family"], pid=meta["id"],
-                                      config=e["configs"][cfg - 1], input_support=sup, input_digest=digest([e["configs"][cfg - 1], sup]),
-                                      failing_inputs={v: len(x) for v, x in byv.items()}, variants=variants,
-                                      site=site_of(c, meta["text"]), replay={"entry_id": meta["id"], "cfg": cfg, "supi": supi}))
-            else:
+            if not all(v in byv for v in variants):
                 report.notes.append("variant-sensitive (not reported): %s %s fails only under %s" % (meta["id"], c, sorted(byv)))
+                continue
+
+            def viol(cfg, supi):
+                sup = e["sups"][cfg - 1][supi - 1]
+                return dict(kind="exec", clause=c, spec=meta["yaml"], text=meta["text"], family=meta["family"], pid=meta["id"],
+                            config=e["configs"][cfg - 1], input_support=sup, input_digest=digest([e["configs"][cfg - 1], sup]),
+                            input_by_tensor={i["name"]: s for i, s in zip(e["inputs"], sup)}, meta={k: v for k, v in meta.items() if k not in ("yaml", "text")},
+                            failing_inputs={v: len(x) for v, x in byv.items()}, variants=variants,
+                            site=site_of(c, meta["text"]), replay={"entry_id": meta["id"], "cfg": cfg, "supi": supi})
+
+            # a failing input is "known" when an open known finding matches it; the program is reported when, under every
+            # variant, at least one failing input is not explained by a known finding
+            unknown, known = {}, {}
+            for v in variants:
+                for cfg, supi in byv[v]:
+                    vv = viol(cfg, supi)
+                    k = match_known(report.prop, vv)
+                    (known if k else unknown).setdefault(v, []).append((vv, k))
+            if all(v in unknown for v in variants):
+                vv = unknown[variants[0]][0][0]
+                vv["unexplained_failing_inputs"] = {v: len(x) for v, x in unknown.items()}
+                report.violations.append(vv)
+            else:
+                ks = {}
+                for v in known:
+                    for vv, k in known[v]:
+                        ks.setdefault(k["id"], (k, vv))
+                for kid, (k, vv) in ks.items():
+                    report.known_hit(k, vv)
     return outcomes
 
 
 def site_of(clause, text):
+    """The first emitted statement that reads the unbound name as an identifier (call site of the finding)."""
+    import ast
     m = re.match(r"Err: unbound name (\w+)", clause)
     if not m:
         return ""
     nm = m.group(1)
-    for line in text.splitlines():
-        if re.search(r"\b%s\b" % re.escape(nm), line):
-            return line.strip()
-    return ""
+    try:
+        tree = ast.parse(text)
+    except SyntaxError:
+        return ""
+    lines = text.splitlines()
+    best = None
+    for n in ast.walk(tree):
+        if isinstance(n, ast.Name) and n.id == nm and isinstance(n.ctx, ast.Load):
+            if best is None or n.lineno < best:
+                best = n.lineno
+    return lines[best - 1].strip() if best else ""
 
 
 def collect(idx, lines, outcomes):
